@@ -77,6 +77,8 @@ def shards(tier, seed):
     out.append(("serialiser_pairs",))
     out.append(("charsets",))  # a server that needs 2.5 ping intervals to write out each item
     out += [("asgi_seq", k) for k in range(8)]
+    # the serialiser families once more in interpreters that run with assert statements compiled away (python -O)
+    out += [("python-O", ("extra",)), ("python-O", ("trailing",)), ("python-O", ("data", 0)), ("python-O", ("data", 4)), ("python-O", ("wsgi_seq",))]
     return out
 
 
@@ -125,7 +127,7 @@ def wsgi_sequences(r):
             r.count("traces")
             w = {"kind": "wsgi_seq", "seq": list(seq)}
             resp = SendEventResponse((dict(e) for e in events), ping_interval=30)
-            res = SV.run_wsgi(resp, SV.to_environ(SV.AReq()))
+            res = SV.run_wsgi(resp, SV.to_environ(SV.AReq(headers=[("Last-Event-ID", "7")])))
             if res.exc is not None or res.problems:
                 r.violation("wsgi-seq:failed", w, f"WSGI SendEventResponse over {events} failed: {res.exc!r} {res.problems[:1]}")
                 continue
@@ -135,7 +137,7 @@ def wsgi_sequences(r):
     r.sample({"wsgi_sequence": [MENU[0], MENU[2]]})
 
 
-CHARSET_EVENTS = [{"data": "é"}, {"event": "名", "data": "中文\n第二行"}, {"id": "ü1", "data": "x"}, {"data": "plain"}]
+CHARSET_EVENTS = [{"data": "é"}, {"event": "名", "data": "中文\n第二行"}, {"id": "ü1", "data": "x"}, {"data": "plain"}, {"event": "a+b", "id": "1~2", "data": "1+1=2 ~ a\\b\n+x-"}]
 
 
 def charset_responses(r):
@@ -144,7 +146,7 @@ def charset_responses(r):
     import re as _re
     for iface in ("wsgi", "asgi"):
         mod = __import__("baize.wsgi" if iface == "wsgi" else "baize.asgi", fromlist=["SendEventResponse"])
-        for charset in (None, "utf-8", "gbk", "latin-1", "big5", "shift_jis", "UTF-8", "iso-8859-15"):  # ASCII-compatible charsets only: line ends and field names are written as ASCII bytes
+        for charset in (None, "utf-8", "gbk", "latin-1", "big5", "shift_jis", "UTF-8", "iso-8859-15", "utf-7", "hz"):  # charsets in which a line end and the field syntax (name, colon, blank) stand for themselves; in the last two some ASCII characters ('+', '~') do not
             for k in range(1, len(CHARSET_EVENTS) + 1):
                 for combo in itertools.combinations(CHARSET_EVENTS, k):
                     events = [dict(e) for e in combo]
@@ -354,7 +356,8 @@ def run_asgi(prefix, events, gate_sends=False, fails=False):
                 await s.env.gate(f"s{nsend[0]:02d}")  # a slow client: the send completes when the explorer says so
 
         resp = SendEventResponse(gen(), ping_interval=10)
-        task = s.loop.create_task(resp(SV.to_scope(SV.AReq()), receive, send))
+        # (the client is one that reconnects: it names the last event it saw - which is the source's business, not the response's)
+        task = s.loop.create_task(resp(SV.to_scope(SV.AReq(headers=[("Last-Event-ID", "7"), ("Accept", "text/event-stream")])), receive, send))
         x = s.drive(task, prefix, max_timers=2, env_filter=lambda n: not n.startswith("zz"))
         obs["stuck"] = x.obs["stuck"] or (None if task.done() else "pending")
         if task.done() and not task.cancelled() and task.exception():
@@ -414,8 +417,25 @@ def asgi_sequences(r, k, tier="thorough"):
     r.sample({"asgi_sequence": [MENU[i] for i in seqs[k::8][-1]], "schedules": "every interleaving of producer steps and <=2 ping timers"})
 
 
+def run_shard_fresh(desc, tier):
+    import sys
+    if desc[0] == "replay-O":
+        rr = R()
+        hit, detail = replay(desc[1])
+        if hit:
+            rr.violation("replayed", desc[1], str(detail)[:300])
+        return rr
+    rr = run_shard(desc, tier)
+    if sys.flags.optimize:
+        rr.viol = {"python-O:" + k: (v[0], dict(v[1], optimize=True), "with assert statements compiled away (python -O): " + v[2]) for k, v in rr.viol.items()}
+    return rr
+
+
 def run_shard(desc, tier):
     r = R()
+    if desc[0] == "python-O":
+        from ..core import fresh
+        return fresh.call(__name__, tuple(desc[1]), tier, env={"PYTHONOPTIMIZE": "1"})
     if desc[0] == "data":
         a0 = ALPHA[desc[1]]
         for n in range(0, MAXLEN[tier]):
@@ -477,7 +497,12 @@ def finish(merged, tier):
 
 
 def replay(w):
+    import sys
     r = R()
+    if w.get("optimize") and not sys.flags.optimize:
+        from ..core import fresh
+        rr = fresh.call(__name__, ("replay-O", {k: v for k, v in w.items() if k != "optimize"}), "quick", env={"PYTHONOPTIMIZE": "1"})
+        return bool(rr.viol), {"violations": sorted(rr.viol), "texts": [v[2][:300] for v in rr.viol.values()], "notes": rr.notes[:1]}
     if w["kind"] == "one":
         ev = dict(w["event"])
         data = ev.pop("data", None)
